@@ -52,3 +52,31 @@ def run(ctx):
     ok, esc, _ = must_pass(rb, lambda c: c.name.endswith("undo_write_entries"), [])
     ctx.ob("K5.ROLLBACK-UNDOES", "execute_rollback", ok, "every Ok path of ROLLBACK / ROLLBACK TO passes undo_write_entries" if ok else
            "a rollback form can return Ok without undoing", rb.loc(), describe_path(rb, esc[0]) if esc else None)
+    # K6: rollback_to_savepoint splits the log purely by index, so a write made after a savepoint needs a log entry after that
+    # savepoint's index.  The appenders therefore log unconditionally; a skip path is acceptable only if its boundary is the
+    # innermost savepoint (savepoints consulted through `last` only) — any other boundary loses the before-image an inner
+    # ROLLBACK TO needs.
+    from paths import arg_origin, origin_fields
+    k6 = 0
+    for f in sorted(m.fns.values(), key=lambda f: f.id):
+        if not f.id.startswith(AT) or f.kind == "closure":
+            continue
+        pushes = [c for c in f.calls if c.name.rsplit("::", 1)[-1] == "push" and
+                  any(x.endswith("ActiveTransaction::write_entries") for x in origin_fields(f, *arg_origin(f, c, 0)[:2]))]
+        if not pushes:
+            continue
+        k6 += 1
+        ok, esc, _ = must_pass(f, lambda c: c in pushes, [], nonempty_loops=True)
+        why = "every path appends to the write log"
+        if not ok:
+            group = [f] + list(common.all_closures(m, f))
+            sp = [c for g in group for c in g.calls if c.args and
+                  any(x.endswith("ActiveTransaction::savepoints") for x in origin_fields(g, *arg_origin(g, c, 0)[:2]))]
+            tails = {c.name.rsplit("::", 1)[-1] for c in sp if not c.name.endswith("ops::Deref>::deref")}
+            if tails and tails <= {"last", "last_mut", "len", "is_empty"}:
+                ok, why = True, "a write can be coalesced, bounded by the innermost savepoint only"
+            else:
+                why = ("a write can return without a log entry (%s) and the skip is not bounded by the innermost savepoint (savepoints consulted via %s): "
+                       "ROLLBACK TO an inner savepoint has no before-image for that row" % (describe_path(f, esc[0]), sorted(tails) or "nothing"))
+        ctx.ob("K6.LOG-EVERY-WRITE", f.id.rsplit("::", 1)[-1], ok, why, f.loc())
+    ctx.floor("K6.appenders", k6, 2)
